@@ -802,6 +802,7 @@ static void c17_end(Run &run) {
     int64_t first_missing = -1;              // first cookie-less/invalid-cookie response read after support was proven
     bool saw_cookieless = false;             // a response without a valid cookie was read while support was not (or no longer) established
     bool ever_cookieless = false;            // the server has, at some point, answered without a valid cookie (every legitimate reset starts from such an answer)
+    int64_t cookieless_since_valid = -1;     // time of the first cookie-less reply read since the last delivered reply with a valid cookie (survives rotations)
     bool proven = false;
   };
   std::vector<SrvModel> M(ns);
@@ -818,6 +819,8 @@ static void c17_end(Run &run) {
   std::map<std::string, int> last_fd;           // qid|qname -> socket of the latest transmission
   std::map<std::string, std::string> last_ck;   // qid|qname -> COOKIE option of the latest transmission (what a response is validated against)
   std::map<std::string, bool> awaiting;         // qid|qname -> transmitted and no answer consumed since (a consumed answer detaches the query until it is re-sent)
+  std::map<std::string, int> reads_since_tx;    // qid|qname -> responses read since the latest transmission
+  std::set<std::pair<int, int>> surely_examined; // (response, read index): the first response read after a transmission of its query, on that transmission's socket
   std::map<std::string, int> udp_after_three;   // qid|qname -> udp transmissions after the third BADCOOKIE
   for (auto &e : evs) {
     if (e.kind == 0) {
@@ -834,12 +837,16 @@ static void c17_end(Run &run) {
       last_fd[key] = t.fd;
       last_ck[key] = ck;
       awaiting[key] = true;
+      reads_since_tx[key] = 0;
       if (badcookie_reads[key] >= 3) { run.violate("C17", "no_tcp_fallback_after_badcookie", "query " + t.qname_lc + " was sent over UDP again after three BADCOOKIE answers"); return; }
       if (!t.msg.opt()) continue;                              // EDNS downgraded: nothing to say
       if (!has_cookie_opt(t.msg)) { m.stopped_sending = true; continue; }
       run.note("cookie_tx_checked");
       if (ck.size() < 8 || ck.size() > 40 || (ck.size() > 8 && ck.size() < 16)) { run.violate("C17", "malformed_cookie_sent", "COOKIE option of " + std::to_string(ck.size()) + " bytes sent for " + t.qname_lc); return; }
       std::string cc = ck.substr(0, 8), sc = ck.substr(8);
+      // the client part is a per-server, per-source-address secret: the all-zero value is what a cleared cookie looks like and
+      // would be the same for every server and address
+      if (cc == std::string(8, '\0')) { run.violate("C17", "zero_client_cookie_sent", "the COOKIE option sent to server " + std::to_string(t.server) + " for " + t.qname_lc + " has an all-zero client part" + (sc.empty() ? "" : " (together with a server cookie)")); return; }
       if (m.cc.empty()) { m.cc = cc; m.cc_since = t.t; m.src_ip = t.src_ip; m.stopped_sending = false; }
       else if (cc != m.cc) {
         // a new client cookie: only at a permitted rotation point
@@ -847,13 +854,23 @@ static void c17_end(Run &run) {
         bool aged = t.t - m.cc_since >= 86400LL * 1000000;
         // starting over is permitted after the client stopped sending cookies, after the regression period, or once it has read
         // a response that carried no (valid) cookie while this client cookie was in use and support was not established
-        bool reset_ok = m.stopped_sending || (m.first_missing >= 0 && t.t - m.first_missing >= 120LL * 1000000) || m.saw_cookieless || m.ever_cookieless;
+        bool reset_ok = m.stopped_sending || (m.first_missing >= 0 && t.t - m.first_missing >= 120LL * 1000000) || m.saw_cookieless || (m.cookieless_since_valid >= 0 && t.t - m.cookieless_since_valid >= 120LL * 1000000) || (m.ever_cookieless && !run.cfg.knob("c17_strict_reset", 1));
         run.note("client_cookie_rotated");
         if (src_changed) run.note("client_cookie_rotated_source_change");
         if (aged) run.note("client_cookie_rotated_age");
-        if (!src_changed && !aged && !reset_ok) { run.violate("C17", "client_cookie_changed", "client cookie for server " + std::to_string(t.server) + " changed after " + std::to_string((t.t - m.cc_since) / 1000000) + " s without a source-address change, a day passing or a permitted reset (query " + t.qname_lc + ", " + hexs(m.cc) + " -> " + hexs(cc) + ")"); return; }
+        // an all-zero client part is what the library sends after its cookie was cleared while a valid reply was still in
+        // flight (observation recorded in DESIGN.md 12.6); leaving it is never held against it
+        bool was_zero = m.cc == std::string(8, '\0');
+        if (was_zero) run.note("all_zero_client_cookie_seen");
+        if (!src_changed && !aged && !reset_ok && !was_zero) { run.violate("C17", "client_cookie_changed", "client cookie for server " + std::to_string(t.server) + " changed after " + std::to_string((t.t - m.cc_since) / 1000000) + " s without a source-address change, a day passing or a permitted reset (query " + t.qname_lc + ", " + hexs(m.cc) + " -> " + hexs(cc) + ")"); return; }
+        // a rotation for a new source address or for age keeps the "supported" verdict and a running regression timer (only
+        // the server cookie is forgotten); a reset starts from scratch
+        bool regression_due = (m.first_missing >= 0 && t.t - m.first_missing >= 120LL * 1000000) || (m.cookieless_since_valid >= 0 && t.t - m.cookieless_since_valid >= 120LL * 1000000);
+        bool keep_support = (src_changed || aged) && m.proven && !regression_due;   // the regression check comes first in the library
+        int64_t keep_missing = m.first_missing;
         m.cc = cc; m.cc_since = t.t; m.src_ip = t.src_ip; m.stopped_sending = false;
         m.sc_allowed.clear(); m.sc_known = false; m.first_missing = -1; m.proven = false; m.saw_cookieless = false;
+        if (keep_support) { m.proven = true; m.first_missing = keep_missing; }
         if (!sc.empty()) { run.violate("C17", "server_cookie_kept_across_rotation", "a server cookie was sent together with a freshly generated client cookie (" + t.qname_lc + ")"); return; }
       } else if (t.src_ip != m.src_ip && run.cfg.sockfuncs != 2) {   // without a getsockname function the library cannot know its address
         run.violate("C17", "client_cookie_kept_after_source_change", "source address changed from " + m.src_ip + " to " + t.src_ip + " but the client cookie for server " + std::to_string(t.server) + " stayed the same");
@@ -875,16 +892,27 @@ static void c17_end(Run &run) {
       std::string qck = last_ck.count(key) ? last_ck[key] : (rs.tx >= 0 ? cookie_of(W.txs[(size_t)rs.tx].msg) : std::string());
       bool valid = ck.size() >= 16 && ck.size() <= 40 && qck.size() >= 8 && ck.substr(0, 8) == qck.substr(0, 8);
       bool on_current_socket = last_fd.count(key) && last_fd[key] == rs.fd;
-      if (rs.rcode == 23 && ck.size() >= 8 && ck.size() <= 40 && qck.size() >= 8 && ck.substr(0, 8) == qck.substr(0, 8) && on_current_socket && awaiting[key]) { badcookie_reads[key]++; awaiting[key] = false; }
+      // an earlier reply to the same transmission may have been consumed (e.g. FORMERR: the query is rewritten without EDNS and
+      // parked for a resend), after which the library no longer relates further replies to a cookie it sent
+      bool first_since_tx = reads_since_tx[key]++ == 0;
+      if (first_since_tx && on_current_socket && qck.size() >= 8) surely_examined.insert({e.idx, e.sub});
+      if (rs.rcode == 23 && ck.size() >= 8 && ck.size() <= 40 && qck.size() >= 8 && ck.substr(0, 8) == qck.substr(0, 8) && on_current_socket && awaiting[key] && first_since_tx) { badcookie_reads[key]++; awaiting[key] = false; }
       if (valid && ck.substr(0, 8) != m.cc) continue;                 // answers a query sent before the rotation: not learned from
       if (valid && !on_current_socket) { m.sc_allowed.insert(ck.substr(8)); continue; }   // may or may not have been looked at
-      if (valid) {
+      if (valid && m.saw_cookieless) {
+        // a cookie-less reply was read while this client cookie was unconfirmed: the library has discarded the cookie and does
+        // not learn from late replies to it
         m.sc_allowed.insert(ck.substr(8));
-        if (delivered_resp.count(rs.id)) { m.sc_allowed.clear(); m.sc_allowed.insert(ck.substr(8)); m.sc_known = true; m.proven = true; m.first_missing = -1; run.note("server_cookie_learned"); }
+        run.note("valid_reply_to_discarded_cookie");
+      } else if (valid) {
+        m.sc_allowed.insert(ck.substr(8));
+        if (delivered_resp.count(rs.id)) { m.sc_allowed.clear(); m.sc_allowed.insert(ck.substr(8)); m.sc_known = true; m.proven = true; m.first_missing = -1; m.cookieless_since_valid = -1; run.note("server_cookie_learned"); }
       } else if (!m.proven && rs.rcode != 23) {
+        if (m.cookieless_since_valid < 0) m.cookieless_since_valid = rs.read_times[(size_t)e.sub];
         m.saw_cookieless = true; m.ever_cookieless = true;
       } else if (m.proven && rs.rcode != 23) {
         m.ever_cookieless = true;
+        if (m.cookieless_since_valid < 0) m.cookieless_since_valid = rs.read_times[(size_t)e.sub];
         if (m.first_missing < 0) m.first_missing = rs.read_times[(size_t)e.sub];
         bool in_window = rs.read_times[(size_t)e.sub] - m.first_missing < 120LL * 1000000;
         if (delivered_resp.count(rs.id) && in_window && !ck.empty()) { /* invalid cookie present */ }
@@ -922,18 +950,14 @@ static void c17_end(Run &run) {
       int64_t last_valid = -1, fm = -1;
       for (auto &rs : W.resps) if (rs.server == (int)sidx && !rs.tcp && !rs.read_times.empty() && cookie_of(rs.msg).size() >= 16) for (int64_t t : rs.read_times) if (t > last_valid) last_valid = t;
       // ... counting only replies that still matched an outstanding query when they were read (others are never examined)
-      auto examined = [&](const Resp &rs, int64_t t) {
-        if (rs.tx < 0) return false;
-        // ... and only replies to transmissions that carried a cookie (a query re-sent without EDNS asks for none)
-        bool asked = false;
-        if (const dnsref::RR *o = W.txs[(size_t)rs.tx].msg.opt()) for (auto &op : o->opts) if (op.code == 10 && op.data.size() >= 8) asked = true;
-        if (!asked) return false;
+      auto examined = [&](const Resp &rs, int64_t t, size_t ri) {
+        if (rs.tx < 0 || !surely_examined.count({rs.id, (int)ri})) return false;
         int tok = W.txs[(size_t)rs.tx].token;
         if (tok < 0 || tok >= (int)run.reqs.size()) return false;
         const Req &q = run.reqs[(size_t)tok];
         return q.t_done < 0 || q.t_done >= t;
       };
-      for (auto &rs : W.resps) if (rs.server == (int)sidx && !rs.tcp && !rs.read_times.empty() && cookie_of(rs.msg).empty() && rs.rcode != 23) for (int64_t t : rs.read_times) if (t > last_valid && examined(rs, t) && (fm < 0 || t < fm)) fm = t;
+      for (auto &rs : W.resps) if (rs.server == (int)sidx && !rs.tcp && !rs.read_times.empty() && cookie_of(rs.msg).empty() && rs.rcode != 23) for (size_t ri = 0; ri < rs.read_times.size(); ri++) { int64_t t = rs.read_times[ri]; if (t > last_valid && examined(rs, t, ri) && (fm < 0 || t < fm)) { fm = t; if (getenv("SIM_DBG_C17")) fprintf(stderr, "C17 regression start candidate: resp#%d tx#%d read at %lld\n", rs.id, rs.tx, (long long)t); } }
       if (fm < 0 || r.t_submit < fm + 121LL * 1000000 || !W.servers[sidx].regress_active) old_enough = false;
       for (auto &ce : run.cookie_ctl) if (ce.server == (int)sidx && ce.t > fm) old_enough = false;   // support toggled again meanwhile: no claim
     }
@@ -1325,10 +1349,22 @@ static void c12_done(Run &run, Req &r) {
   // ---- what was seen on the wire for this request ----
   std::vector<std::string> seen;
   std::set<std::pair<std::string, int>> seen_q;   // a candidate = one query id (the same name can legitimately be a candidate twice)
+  std::map<std::pair<std::string, int>, int> last_tx_of;
   for (int i = r.tx_at_submit; i < (int)W.txs.size(); i++) {
     const Tx &t = W.txs[(size_t)i];
     if (t.token != r.token || !t.decode_err.empty() || t.msg.qd.empty() || t.msg.qd[0].type != qtype) continue;
-    if (seen_q.insert({t.qname_lc, (int)t.msg.id}).second) seen.push_back(t.qname_lc);
+    if (seen_q.insert({t.qname_lc, (int)t.msg.id}).second) { seen.push_back(t.qname_lc); last_tx_of[{t.qname_lc, (int)t.msg.id}] = i; continue; }
+    // same name and same (16-bit, randomly chosen) query id as an earlier transmission: a retry, unless that transmission had
+    // already been answered definitively - then this is the next candidate, which happens to have drawn the same id
+    int prev = last_tx_of[{t.qname_lc, (int)t.msg.id}];
+    bool answered = false;
+    for (int rid : W.txs[(size_t)prev].resp_ids) {
+      const Resp &rs = W.resps[(size_t)rid];
+      if (rs.tainted || rs.forged || rs.tc || (rs.rcode != 0 && rs.rcode != 3) || rs.read_seqs.empty() || rs.read_seqs[0] >= t.seq) continue;
+      if (rs.acceptable == 1) answered = true;
+    }
+    if (answered) { seen.push_back(t.qname_lc); run.note("search_candidate_same_query_id"); }
+    last_tx_of[{t.qname_lc, (int)t.msg.id}] = i;
   }
   run.note("search_walk_checked");
   if (cands.size() > 1) run.note("search_walk_multi_candidate");
